@@ -1838,6 +1838,39 @@ def check_C09_spans(in_view, out_view, er):
         allowed.add(span_key(er.hooks[hi]['span']))
         if k not in allowed:
             out.append(Violation('C09', 'span/injected-%s-span-from-elsewhere' % what, True, 'injected %s node carries span %s, the instrumented expression has %s' % (what, k, sorted(allowed)[:4])))
+    # (3) an identifier named like a temporary either has no position or a position inside the statement it is printed in
+    # (temporary *names* recur in every statement of a block; a node shared between statements would resolve the later
+    # uses to the earlier statement). A user identifier of that name trivially lies inside its own statement.
+    bad = []
+
+    def walk(v, stmt):
+        if isinstance(v, (list, tuple)):
+            for x in v:
+                walk(x, stmt)
+            return
+        if not isinstance(v, dict) or is_lazy(v):
+            return
+        if v.get('_t') == 'Stmt' and not is_lazy(v) and kind(v) not in (None, '?', 'Block') and isinstance(v.get('_0'), dict):
+            inner = v['_0']
+            if kind(v) == 'Decl' and isinstance(inner.get('_0'), dict):
+                inner = inner['_0']
+            sp = inner.get('span')
+            if isinstance(sp, dict) and sp.get('_t') == 'Span' and not span_is_dummy(sp):
+                stmt = sp
+        if v.get('_t') == 'Ident' and isinstance(v.get('span'), dict) and 'sym' in v and sym_is_temp(v['sym']) and stmt is not None:
+            sp = v['span']
+            try:
+                lo, hi, slo, shi = int(sp['lo']['0']), int(sp['hi']['0']), int(stmt['lo']['0']), int(stmt['hi']['0'])
+            except (TypeError, ValueError, KeyError):
+                lo = None
+            if lo is not None and not (lo == 0 and hi == 0) and not (slo <= lo and hi <= shi):
+                bad.append(((lo, hi), (slo, shi)))
+        for x in v.values():
+            walk(x, stmt)
+
+    walk(out_view, None)
+    if bad:
+        out.append(Violation('C09', 'span/temporary-carries-span-of-another-statement', True, 'a temporary at span %s is printed inside the statement spanning %s' % bad[0]))
     return out
 
 
